@@ -179,3 +179,72 @@ func ruleH5(c *Ctx) {
 }
 
 var _ = types.Identical
+
+func init() {
+	register("V7", "iterator instructions are balanced in the compiler: every compiler function emits as many ITERPOP as ITERPUSH instructions (the for statement and each comprehension clause pop the iterator they pushed; early exits rely on the VM's deferred drain)", 2, ruleV7)
+}
+
+func ruleV7(c *Ctx) {
+	oi := opcodes(c)
+	if oi == nil {
+		return
+	}
+	emit := c.P.Func(compilePkg, "fcomp.emit")
+	if emit == nil {
+		c.anchorFail("fcomp.emit not found")
+		return
+	}
+	push, pop := oi.byName["ITERPUSH"], oi.byName["ITERPOP"]
+	n := 0
+	for _, fn := range c.P.Funcs {
+		if fnPkgPath(fn) != modPath+"/"+compilePkg {
+			continue
+		}
+		np, nq := 0, 0
+		var at token.Pos
+		eachInstr(fn, func(in ssa.Instruction) {
+			call, ok := in.(*ssa.Call)
+			if !ok || len(call.Call.Args) < 2 {
+				return
+			}
+			cal := call.Call.StaticCallee()
+			if cal == nil || !strings.HasPrefix(cal.Name(), "emit") || fnPkgPath(cal) != modPath+"/"+compilePkg {
+				return
+			}
+			for _, a := range call.Call.Args[1:] {
+				ks := []int64{}
+				if k, ok := constInt(a); ok {
+					ks = append(ks, k)
+				}
+				for _, v := range variadicElems(a) {
+					if k, ok := constInt(v); ok {
+						ks = append(ks, k)
+					}
+				}
+				for _, k := range ks {
+					if k == push {
+						np++
+						at = call.Pos()
+					}
+					if k == pop {
+						nq++
+						at = call.Pos()
+					}
+				}
+			}
+		})
+		if np == 0 && nq == 0 {
+			continue
+		}
+		n++
+		key := fnName(fn) + ": ITERPUSH/ITERPOP emission"
+		if np == nq {
+			c.ok(key, c.P.Pos(at), fmt.Sprintf("%d ITERPUSH, %d ITERPOP", np, nq))
+		} else {
+			c.viol(key, c.P.Pos(at), fmt.Sprintf("%d ITERPUSH but %d ITERPOP emitted: a loop that completes normally leaves its iterator on the frame's iterator stack (the collection stays locked until the function returns) or pops one it did not push", np, nq))
+		}
+	}
+	if n == 0 {
+		c.anchorFail("no function emits ITERPUSH/ITERPOP")
+	}
+}
